@@ -346,6 +346,98 @@ pub fn cli_unit(ctx: &Ctx, rng: &mut Rng, o: &mut Out) {
       );
     }
   }
+  // `sg scan` against the library search, embedded documents included: a host file is searched as
+  // the host document plus the documents `get_injections` extracts from it (script, style), each
+  // with the rules of its language — whether or not the rule file restricts the rule to paths
+  // (`files:` / `ignores:`; a restriction that selects the file must not change what is found in it)
+  let page = "<html>\n<head>\n<style>\n  a { color: red }\n  .b { margin: 0 }\n</style>\n</head>\n<body>\n<script>\n  console.log(1)\n  foo(console.log(2))\n</script>\n<p foo>console.log(0)</p>\n<script>console.log(3)</script>\n<style>p{color:blue}</style>\n</body>\n</html>\n";
+  let scan_files: [(&str, SupportLang, &str); 4] = [
+    ("web/page.html", SupportLang::Html, page),
+    ("web/plain.js", SupportLang::JavaScript, "console.log(4)\nfoo(5)\n"),
+    ("web/plain.css", SupportLang::Css, "a { color: red }\n"),
+    ("web/deep/other.html", SupportLang::Html, "<script>\nfoo(console.log(6))\n</script>\n"),
+  ];
+  let scan_rules: [(SupportLang, &str); 6] = [
+    (SupportLang::JavaScript, r#"{"pattern": "console.log($A)"}"#),
+    (SupportLang::JavaScript, r#"{"kind": "number"}"#),
+    (SupportLang::Css, r#"{"kind": "declaration"}"#),
+    (SupportLang::Css, r#"{"pattern": "color: $C"}"#),
+    (SupportLang::Html, r#"{"kind": "script_element"}"#),
+    (SupportLang::Html, r#"{"kind": "attribute_name"}"#),
+  ];
+  // (extra keys of the rule document, the files it leaves selected)
+  let conditions: [(&str, fn(&str) -> bool); 5] = [
+    ("", |_| true),
+    ("files: ['**/*.html']\n", |f| f.ends_with(".html")),
+    ("ignores: ['**/*.js']\n", |f| !f.ends_with(".js")),
+    ("files: ['web/**']\nignores: ['web/deep/**']\n", |f| !f.starts_with("web/deep/")),
+    ("ignores: ['**/nothing-here/**']\n", |_| true),
+  ];
+  let sdir = tempfile::tempdir().expect("tempdir");
+  for (rel, _, text) in scan_files {
+    let p = sdir.path().join(rel);
+    std::fs::create_dir_all(p.parent().unwrap()).unwrap();
+    std::fs::write(&p, text).unwrap();
+  }
+  let mut scan_cases = 0usize;
+  for (rlang, rule) in scan_rules {
+    let spec: Value = json!({"rule": serde_json::from_str::<Value>(rule).unwrap()});
+    let Some(cfg) = load_config(&spec, "r", rlang, false) else {
+      o.oracle("cli-scan", false, json!({"fp": "a plain rule of the scan cases does not load", "rule": rule}));
+      continue;
+    };
+    for (extra, selected) in conditions {
+      // library: every document of every selected file, in the rule's language
+      let mut lib: Vec<(String, usize, usize)> = vec![];
+      for (rel, flang, text) in scan_files {
+        if !selected(rel) {
+          continue;
+        }
+        let host = flang.ast_grep(text);
+        let mut docs = vec![host.inner.clone()];
+        docs.extend(host.inner.get_injections(|s| s.parse::<SupportLang>().ok()));
+        for d in &docs {
+          if *d.lang() != rlang {
+            continue;
+          }
+          lib.extend(d.root().find_all(&cfg.matcher).map(|m| (rel.to_string(), m.range().start, m.range().end)));
+        }
+      }
+      lib.sort();
+      let yaml = format!("id: r\nlanguage: {}\n{}rule: {}\n", lang_name(rlang), extra, rule);
+      let rule_file = sdir.path().join("rule.yml");
+      std::fs::write(&rule_file, &yaml).unwrap();
+      // `files` / `ignores` globs are relative to the working directory
+      let out = Command::new("timeout")
+        .arg("30")
+        .arg(&exe)
+        .args(["scan", "-r", "rule.yml", "--json=stream", "web"])
+        .current_dir(sdir.path())
+        .stdin(Stdio::null())
+        .stderr(Stdio::null())
+        .output();
+      scan_cases += 1;
+      let cli: Option<Vec<(String, usize, usize)>> = out.ok().filter(|o| matches!(o.status.code(), Some(0) | Some(1))).map(|o| {
+        let mut v: Vec<(String, usize, usize)> = String::from_utf8_lossy(&o.stdout)
+          .lines()
+          .filter(|l| !l.trim().is_empty())
+          .filter_map(|l| serde_json::from_str::<Value>(l).ok())
+          .map(|v| (v["file"].as_str().unwrap_or("").to_string(), v["range"]["byteOffset"]["start"].as_u64().unwrap_or(0) as usize, v["range"]["byteOffset"]["end"].as_u64().unwrap_or(0) as usize))
+          .collect();
+        v.sort();
+        v
+      });
+      if cli.as_ref() != Some(&lib) {
+        o.oracle(
+          "cli-scan",
+          false,
+          json!({"fp": format!("cli-scan differs from library search: rule language {} path-conditioned={}", lang_name(rlang), !extra.is_empty()),
+                 "rule": yaml, "cli": cli, "lib": lib}),
+        );
+      }
+    }
+  }
+  o.oracle("cli-scan", true, json!({"cases": scan_cases}));
   o.oracle("cli-run-done", true, json!({"cases": cases}));
 }
 
